@@ -87,3 +87,30 @@ Theorem C12_ids_sequence : forall j k s,
   (do (a, r) <- make_ids j s; do (b, r') <- make_ids k r; Ok ((a ++ b)%list, r')).
 Proof. exact make_ids_app. Qed.
 Print Assumptions C12_ids_sequence.
+
+(* the boolean monitor evaluated on the implementation's URLs is sound for the
+   statement above, and the model's own output always satisfies it *)
+Theorem C12_monitor_sound :
+  forall reenc param dest enc relay url,
+  redirect_spec reenc param dest enc relay url = true ->
+  let rawq := snd (fst (split_url dest)) in
+  has_saml_key (fst (parse_query rawq)) = false ->
+  let ps := fst (parse_query (query_of url)) in
+  values_of param ps = [enc] /\
+  values_of "RelayState" ps = (if nonempty relay then [relay] else []).
+Proof. exact redirect_spec_sound. Qed.
+Print Assumptions C12_monitor_sound.
+
+Theorem C12_model_meets_monitor :
+  forall sign dest enc relay method kt url octets,
+  authn_redirect sign dest enc relay method kt = Ok (url, octets) ->
+  redirect_spec false "SAMLRequest" dest enc relay url = true.
+Proof. exact authn_redirect_meets_spec. Qed.
+Print Assumptions C12_model_meets_monitor.
+
+Theorem C12_ids_meet_monitor :
+  forall k s ids,
+  make_ids k s = Ok (ids, EmptyString) ->
+  idcase_spec {| ic_stream := s; ic_n := Z.of_nat k; ic_ids := ids |} = true.
+Proof. exact make_ids_meets_spec. Qed.
+Print Assumptions C12_ids_meet_monitor.
